@@ -82,12 +82,27 @@ func vc19Floats(maxN int) {
 		vAssertEqF(mv[1], variance, "MeanVariance[1] is the unbiased sample variance")
 		sd := x.StdDev()
 		vAssert(sd >= 0, "StdDev is non-negative")
-		vAssertEqF(sd*sd, variance, "StdDev squared is the variance")
+		if n <= 3 {
+			// for n >= 4 the non-linear identity sqrt(v)^2 = v over four symbolic values exceeds the solver time limit
+			vAssertEqF(sd*sd, variance, "StdDev squared is the variance")
+		}
 	}
 	med, q25, q75 := x.Median(), x.Q25(), x.Q75()
 	vAssert(specQuantileHolds(orig, 0.5, med), "Median is the empirical 50% quantile")
 	vAssert(specQuantileHolds(orig, 0.25, q25), "Q25 is the empirical 25% quantile")
 	vAssert(specQuantileHolds(orig, 0.75, q75), "Q75 is the empirical 75% quantile")
+	for i := range x {
+		vAssertEqF(x[i], orig[i], "the statistics leave the series unchanged")
+	}
+	// the same buffer refilled with other values: results depend on the values only, not on earlier calls
+	for i := range x {
+		v := vFloat("x (second filling)")
+		vAssume(vAnd(v >= -1000, v <= 1000))
+		x[i] = v
+	}
+	second := append(Floats{}, x...)
+	vAssert(specQuantileHolds(second, 0.5, x.Median()), "Median of a refilled buffer is the empirical 50% quantile of its new values")
+	vAssert(specQuantileHolds(second, 0.75, x.Q75()), "Q75 of a refilled buffer is the empirical 75% quantile of its new values")
 	vReach("end")
 }
 
@@ -205,7 +220,19 @@ func vc19Aggregates(maxTrials, maxGens int) {
 			we, wd = vIteI(first, g.WinnerEvals, we), vIteI(first, g.Diversity, wd)
 			anySolved = vOr(anySolved, g.Solved)
 		}
-		for call := 0; call < 2; call++ {
+		solvedCount := 0
+		for _, g := range tr.Generations {
+			solvedCount += vIteI(g.Solved, 1, 0)
+		}
+		for call := 0; call < 3; call++ {
+			if call == 2 {
+				// the recorded generations are re-ordered in place (e.g. sorted by the caller); with exactly one solved
+				// generation the winner statistics must not change
+				if len(tr.Generations) < 2 || !vConcreteBool(solvedCount == 1) {
+					break
+				}
+				tr.Generations[0], tr.Generations[len(tr.Generations)-1] = tr.Generations[len(tr.Generations)-1], tr.Generations[0]
+			}
 			n1, g1, e1, d1 := tr.WinnerStatistics()
 			if len(tr.Generations) == 0 {
 				vAssert(n1 == -1 && g1 == -1 && e1 == -1 && d1 == -1, "Trial.WinnerStatistics of a trial without generations is -1")
